@@ -25,8 +25,9 @@ assignments are additionally interleaved with merges/splits to full depth on tab
 (2) a second text configuration ("mixed": empty cells and two-paragraph cells) is explored next to
 "a distinct letter in every cell"; (3) the 6x6 exploration is BFS depth 2 restricted to
 merge/split/foreign-merge operations (level 1 = every rectangle, level 2 = every ordered cell pair
-and every split from each of the 405 single-rectangle states); in the quick tier level 2 uses the
-top-left/bottom-right orientation of each pair only (all four orientations in thorough);
+and every split from each of the 405 single-rectangle states) in the thorough tier; the quick tier
+does the same on a 5x5 table (200 single-rectangle states) with the top-left/bottom-right orientation
+of each pair only at level 2 — the 6x6 leg alone costs more than the rest of the quick tier together;
 (4) text oracle: the origin of a merge reads exactly the paragraphs of the merged cells in row-major
 order, where a cell holding nothing but ONE empty paragraph — however it is written: <a:p/>,
 <a:p><a:endParaRPr/></a:p>, <a:p><a:pPr/></a:p> — contributes nothing; a difference that consists of
@@ -82,9 +83,10 @@ RULE = ("states: distinct sha1(c14n(a:tbl)+frame cx,cy) per table configuration 
         "one unmerged cell with itself or an assignment of the value already present.")
 ASSUMPTIONS = [
     "bounded: shapes r,c in 1..3 to depth 3 and shapes with a side of 4 to depth 2 (quick); all shapes up to 4x4 "
-    "to depth 3 (thorough); 6x6: depth 1 from every single-rectangle merged state",
+    "to depth 3 (thorough); depth 1 from every single-rectangle merged state of a 6x6 table (thorough) / of a 5x5 "
+    "table with one corner orientation per pair (quick)",
     "the statement's 'randomly on tables up to 12x12' is sampling, a different technique, and is NOT done; it is "
-    "replaced by the exhaustive depth-1 exploration from every single-rectangle state of a 6x6 table",
+    "replaced by the exhaustive depth-1 exploration from every single-rectangle state of a 6x6 (quick: 5x5) table",
     "full-depth search on the (non-divisible, non-divisible) size variant only; the other 8 (width,height) "
     "variants (divisible / non-divisible / smaller than the count) are explored to depth 1",
     "text alphabet: a distinct letter in every cell; plus a 'mixed' configuration with empty cells and "
@@ -850,7 +852,9 @@ def make_cfgs(thorough, have_ph, corpus_tables=()):
         depth = (3 if small else 2) if thorough else (2 if small else 1)
         cfgs.append((via, r, c, "corpus", "corpus", "corpus", depth, 1 if small else 0, 0))
     # 6x6: every rectangle, then every pair / split from each single-rectangle state
-    cfgs.append(("api", 6, 6, "nondiv", "nondiv", "letters", 2, 0, 0 if thorough else 1))
+    # (quick: a 5x5 table and one orientation per pair at the second level; thorough: 6x6, all four orientations)
+    big_n = 6 if thorough else 5
+    cfgs.append(("api", big_n, big_n, "nondiv", "nondiv", "letters", 2, 0, 0 if thorough else 1))
     return cfgs
 
 
